@@ -759,7 +759,7 @@ fn main() {
             }));
         }
         // an observer asks is_idle() while tasks are queued / being executed (the only completion signal submit() offers)
-        for (w, c, n) in [(1usize, 2usize, 1usize), (1, 1, 2), (2, 2, 2)] {
+        for (w, c, n) in [(1usize, 2usize, 1usize), (1, 1, 2), (2, 2, 2), (1, 1, 3)] {
             reg.add(Sched(ExecSpec {
                 name: format!("WorkStealingExecutor[workers={w},capacity={c}] {n} plain task(s) + an is_idle() observer"),
                 submitters: 1,
